@@ -267,6 +267,18 @@ def dom_end(ctx, prog):
         ctx.ok(R, "apply-before-teardown")
     else:
         ctx.fail(R, "apply-before-teardown", "dead vars are torn down before their deferred writes are applied", fn=F)
+    # update handlers run after the deferred writes of this stabilise are applied: a handler reads / composes on /
+    # overrides the value the node functions left behind, never the pre-stabilise one
+    b_handlers = phase_block("run_on_update_handlers")
+    ctx.site(R, F, "handler phase bb%s" % b_handlers)
+    if b_handlers is None:
+        ctx.missing(R, "handler phase (run_on_update_handlers) in stabilise_end")
+    elif c.dominates(b_apply, b_handlers) and b_apply != b_handlers:
+        ctx.ok(R, "apply-before-handlers")
+    else:
+        ctx.fail(R, "apply-before-handlers", "update handlers run before the deferred var writes of the stabilise are "
+                 "applied: a handler sees the pre-stabilise value and its own write is overwritten by the older deferred "
+                 "one (program order inverted)", fn=F)
     # bumps of stabilisation_num elsewhere
     for a in writes_of(prog, "incremental::state::State.stabilisation_num"):
         ctx.site(R, a.fn, "bb%d stabilisation_num %s" % (a.bb, a.kind))
